@@ -17,7 +17,8 @@ func init() {
 			"R3 every pool index of the form e % n inside a probing loop is 'loop-invariant base + unit-step counter' or a counter advanced by exactly one per iteration (visits every slot); " +
 			"R5 every struct field that is accessed through sync/atomic anywhere is accessed through it everywhere; " +
 			"R6 the retry loop keeps retrying unless the client cancelled or the try duration is spent and ends in 502; " +
-			"R7 every attempt gets the rewound buffered body and buffering is decided by exactly {more than one host, retries enabled}.",
+			"R7 every attempt gets the rewound buffered body and buffering is decided by exactly {more than one host, retries enabled}; " +
+			"R8 the hash policies' first slot is a function of key and pool length only (deterministic hash of the whole key), and each policy keys by its documented request attribute — ip_hash by the client address with the port removed by net.SplitHostPort.",
 		notDecided: "evenness of round_robin and random; hash stability across pool changes; timing of try_duration; outcome under all failure patterns.",
 	})
 	register("C14", &propSpec{
@@ -38,6 +39,7 @@ func runC05(r *Report, p *Program) {
 	atomicConsistency(h, "R5")
 	c05R6(h)
 	bodyReplayRule(h, "R7")
+	c05R8(h)
 }
 
 func selectFuncs(h H, rule string) []*ssa.Function {
@@ -560,7 +562,41 @@ func c14R5(h H) {
 
 func c14R1(h H) {
 	r := h.r
-	r.Rule("R1", "counter pairing: every sync/atomic Add of +1 on UpstreamHost.Conns is paired, in the same function, with a deferred Add of -1 on the same address registered on every path before the forward call can panic; every Add of +1 on UpstreamHost.Fails is followed on every path to an exit by a `go` of a function that calls time.Sleep and then Add(-1) on the host's Fails, and both lie behind FailTimeout > 0", 2)
+	// every forward is counted: in the function that performs the forward call, the +1 on the chosen host's
+	// in-flight counter lies on every path to that call (counting only some requests, e.g. only when a cap is
+	// configured, makes least_conn and the drain-to-zero clause wrong)
+	defer func() {
+		sv := h.p.Func(pxPkg, "Proxy.ServeHTTP")
+		if sv == nil {
+			return
+		}
+		nf := 0
+		for _, fn := range withClosures(sv) {
+			for _, c := range findCalls(fn, func(in ssa.Instruction) bool {
+				cc := callOf(in)
+				return cc != nil && strings.HasSuffix(calleeName(cc), "proxy.ReverseProxy).ServeHTTP")
+			}) {
+				nf++
+				ok := mustPass(fn, c, func(in ssa.Instruction) bool {
+					addr, name, isAt := isAtomicCall(in)
+					if !isAt || !strings.HasPrefix(name, "Add") {
+						return false
+					}
+					if _, isDefer := in.(*ssa.Defer); isDefer {
+						return false
+					}
+					d, _ := constInt(callOf(in).Args[1])
+					fa, isFA := addr.(*ssa.FieldAddr)
+					return isFA && d == 1 && fieldName(fa.X.Type(), fa.Field) == "Conns"
+				})
+				r.Check(ok, "R1", shortFunc(fn)+"/forward-is-counted", c.Pos(), "the in-flight counter is incremented on every path to the forward call (every request being forwarded is counted, not only some)")
+			}
+		}
+		if nf == 0 {
+			r.Unresolve("R1", "Proxy.ServeHTTP: no call of ReverseProxy.ServeHTTP found")
+		}
+	}()
+	r.Rule("R1", "counter pairing: every sync/atomic Add of +1 on UpstreamHost.Conns is paired, in the same function, with a deferred Add of -1 on the same address registered on every path before the forward call can panic, and the forward call is reached only past such a +1; every Add of +1 on UpstreamHost.Fails is followed on every path to an exit by a `go` of a function that calls time.Sleep and then Add(-1) on the host's Fails, and both lie behind FailTimeout > 0", 2)
 	n := 0
 	for _, fn := range h.p.PkgFuncs(pxPkg) {
 		allInstrs(fn, func(in ssa.Instruction) {
